@@ -10,7 +10,6 @@ ADDENDA = {
     "C01": "; + layouts with video segments of four fragments (sample duration in every tfhd / in the init segment's trex only): every fragment's distance to the segment start as in the VoD file",
     "C04": "; + timeoffset_ x start_100 (also ato_inf, segtimeline_1) x 6 offsets x the instants at which either clock passes the stream start and the first availability instants (425 bodies compared)",
     "C16": "; + configuration testpic8s-chunked (chunks above 64 KiB)",
-    "C19": "; + scenario audio-ahead-across-start (audio two segments ahead on two connections with stalled bodies while the video track's second segment fixes the channel's numbering)",
     "C07": "; + DRM init segments of a second asset with the same representation ids; + the alphabet served once more in reverse order by a child process of the same binary (each request on a server of its own) and compared with this process's answers (state outside the server instance)",
     "C08": "; + 7 Annex I key lists x 16 query strings (keys more often, less often, in another order, without value) x 4 endpoints x 2 MPD types; + receiver uploads x 26 Content-Length header values (absent, 0, too small, too large, negative, not a number, 2^60..2^63-1, beyond int64) x {init, media} x {parsing, raw mode} (values between 2^31 and 2^47 left out: they would take the machine's memory where the handler allocates what the field says)",
     "C10": "; + two CPIX packages that share the one-key package's key id (another explicitIV; the cenc scheme); + assets with all / only the audio / only the video track pre-encrypted",
